@@ -358,14 +358,14 @@ def float_monitors(chk, tier):
     import scipy.linalg
     from quantarhei.qm import LindbladForm, SystemBathInteraction, Operator
     r = cm.rng(PID + "float")
-    ncases = 24 if tier == "quick" else 300
+    ncases = 30 if tier == "quick" else 360
     for k in range(ncases):
         reset_manager()
         rs = np.random.RandomState(r.randrange(2 ** 31))
         n = int(rs.choice([2, 3, 4]))
         L = int(rs.choice([2, 4, 6]))
         nref = int(rs.choice([1, 2, 5]))
-        kind = ["lindblad_ops", "lindblad_tensor", "closed", "rwa"][k % 4]
+        kind = ["lindblad_ops", "lindblad_tensor", "closed", "rwa", "reuse"][k % 5]
         c = {"kind": "float:" + kind, "n": n, "L": L, "nref": nref, "k": k, "nref_via_keyword": k % 8 < 4}
         try:
             with contextlib.redirect_stdout(io.StringIO()):
@@ -407,6 +407,37 @@ def float_monitors(chk, tier):
                         if abs(np.trace(out[i]) - 1) > 1e-11 or np.max(np.abs(out[i] - out[i].conj().T)) > 1e-11:
                             chk.violation("float:trace_herm:" + kind, "stored state %d: trace %r, Hermiticity deviation %g"
                                           % (i, np.trace(out[i]), np.max(np.abs(out[i] - out[i].conj().T))), "monitor", c)
+                            break
+                elif kind == "reuse":
+                    # one propagator (Lindblad generator + pure dephasing) used repeatedly with different per-call settings: every
+                    # call must give what a fresh propagator with the same settings gives (and hence follow the same generator)
+                    from quantarhei.qm.liouvillespace.puredephasing import PureDephasing
+                    ham = qr.Hamiltonian(data=Hm.copy())
+                    Ks = [np.zeros((n, n))]
+                    Ks[0][rs.randint(n), rs.randint(n)] = 1.0
+                    rates = [float(rs.rand() * 0.05)]
+                    g = np.abs(rs.randn(n, n)) * 0.03
+                    g = g + g.T
+                    np.fill_diagonal(g, 0.0)
+                    form_ops = bool(rs.rand() < 0.5)
+
+                    def fresh():
+                        sbi = SystemBathInteraction(sys_operators=[Operator(data=K_.copy()) for K_ in Ks], rates=rates)
+                        LF = LindbladForm(qr.Hamiltonian(data=Hm.copy()), sbi, as_operators=form_ops)
+                        return qr.ReducedDensityMatrixPropagator(ta, qr.Hamiltonian(data=Hm.copy()), RTensor=LF,
+                                                                 PDeph=PureDephasing(drates=g.copy(), dtype=str(rs2.choice(["Lorentzian", "Gaussian"]))))
+                    rs2 = np.random.RandomState(k)
+                    shared = fresh()
+                    calls = [dict(Nref=int(rs.choice([1, 1, 2, 5, 10])), method=method_of(int(rs.choice([2, 4, 6])))) for _ in range(4)]
+                    for ci, kw in enumerate(calls):
+                        rs2 = np.random.RandomState(k)
+                        ref = np.array(fresh().propagate(qr.ReducedDensityMatrix(data=rho0.copy()), **kw).data)
+                        got = np.array(shared.propagate(qr.ReducedDensityMatrix(data=rho0.copy()), **kw).data)
+                        dev = float(np.max(np.abs(got - ref)))
+                        if dev > 1e-12:
+                            chk.violation("float:reuse:propagator", "call %d %r on a propagator with pure dephasing used before with %r differs from a fresh "
+                                          "propagator by %g (n=%d, %s form)" % (ci, kw, calls[:ci], dev, n, "operator" if form_ops else "tensor"), "monitor",
+                                          dict(c, calls=calls))
                             break
                 elif kind == "closed":
                     ham = qr.Hamiltonian(data=Hm.copy())
